@@ -11,7 +11,7 @@ import (
 
 func main() {
 	if len(os.Args) < 2 {
-		fmt.Fprintln(os.Stderr, "usage: proto <c12|c13|linkloss|redial> [flags]")
+		fmt.Fprintln(os.Stderr, "usage: proto <c12|c13|linkloss|lockrace|redial> [flags]")
 		os.Exit(2)
 	}
 	fs := flag.NewFlagSet(os.Args[1], flag.ExitOnError)
@@ -24,6 +24,8 @@ func main() {
 		runC12(*n, *out, *replay)
 	case "c13":
 		runC13(*n, *out, *replay)
+	case "lockrace":
+		runLockRaceCmd(*n, *out, *replay)
 	case "linkloss":
 		runLinkLoss(*n, *out, *replay)
 	case "redial":
